@@ -123,18 +123,16 @@ pub fn build(
 ) -> anyhow::Result<(Option<TypeVftable>, Option<Region>)> {
     // Whether this type gets a vftable pointer of its own depends on its first base: wait
     // until that base has been resolved instead of guessing that it has no vftable.
-    if let Some(Region {
-        type_ref: Type::Raw(base_path),
-        ..
-    }) = first_base
-    {
-        if semantic
-            .type_registry
-            .get(base_path)
-            .is_some_and(|base| !base.is_resolved())
-        {
-            return Ok((None, None));
-        }
+    let first_base_unresolved = matches!(
+        first_base,
+        Some(Region { type_ref: Type::Raw(base_path), .. })
+            if semantic
+                .type_registry
+                .get(base_path)
+                .is_some_and(|base| !base.is_resolved())
+    );
+    if first_base_unresolved && vftable_functions.is_none() {
+        return Ok((None, None));
     }
 
     if let Some(vftable_functions) = vftable_functions {
@@ -153,6 +151,12 @@ pub fn build(
         let vftable_path = vftable_type.path.clone();
         let vftable_pointer_type = Type::ConstPointer(Box::new(Type::Raw(vftable_path)));
         semantic.add_item(vftable_type)?;
+
+        // The generated vftable type does not depend on the base, and the base may itself
+        // refer to it by name, so it is registered before waiting for the base.
+        if first_base_unresolved {
+            return Ok((None, None));
+        }
 
         if let Some((base_name, base_vftable)) = get_optional_region_name_and_vftable(
             &semantic.type_registry,
